@@ -39,7 +39,7 @@ pub const PROPS: &[PropInfo] = &[
         rule: "one case = one history with VACUUM at arbitrary points; non-trivial = a VACUUM ran after committed or rolled-back work and a state check followed it; distinct = distinct fingerprints" },
     PropInfo { id: "C15", engine: Engine::Sql, level: "exploration", quick_runs: 5000, thorough_runs: 30000, watchdog_s: 30,
         rule: "one case = one DDL-heavy history (CREATE/DROP/CREATE UNIQUE INDEX inside committed and rolled-back transactions, name reuse, reopen); non-trivial = at least one DDL statement ran inside a session and a later statement resolved that name; distinct = distinct fingerprints" },
-    PropInfo { id: "C16", engine: Engine::Sql, level: "exploration", quick_runs: 4000, thorough_runs: 100000, watchdog_s: 20,
+    PropInfo { id: "C16", engine: Engine::Sql, level: "exploration", quick_runs: 16000, thorough_runs: 400000, watchdog_s: 20,
         rule: "one case = one history into which malformed, mutated and ill-typed statements are injected at arbitrary points of arbitrary sessions; non-trivial = at least one injected statement was rejected inside an open session and the state was compared afterwards; distinct = distinct fingerprints" },
     PropInfo { id: "C06", engine: Engine::Sql, level: "exploration", quick_runs: 4000, thorough_runs: 30000, watchdog_s: 30,
         rule: "one case = one history followed by plan-variant families of the same logical query (index scan vs predicate no index serves; point vs range form); non-trivial = the variants of at least one family used different physical operators according to EXPLAIN; distinct = distinct fingerprints" },
